@@ -69,7 +69,8 @@ def one_acquire_one_release(ctx):
     ctx.need(len(builders) >= 2, 'request-args builders not found')
     for m in builders:
         cs = [c for c in own_calls(m.node) if (dotted(c.func) or '') == 'self._default_get_make_request_args']
-        ok = len(cs) == 1 and norm(kwarg(cs[0], 'on_done_after_calls')) == 'on_done_after_calls' and norm(kwarg(cs[0], 'on_done_before_calls')) == 'on_done_before_calls'
+        b = q.bound(ctx, m, cs[0]) if len(cs) == 1 else {}
+        ok = len(cs) == 1 and norm(b.get('on_done_after_calls')) == 'on_done_after_calls' and norm(b.get('on_done_before_calls')) == 'on_done_before_calls'
         muts = [c for c in own_calls(m.node) if isinstance(c.func, ast.Attribute) and norm(c.func.value) == 'on_done_after_calls']
         rets = [x for x in own_nodes(m.node) if isinstance(x, ast.Return)]
         var = cs[0]._parent.targets[0].id if cs and isinstance(cs[0]._parent, ast.Assign) else None
@@ -77,7 +78,8 @@ def one_acquire_one_release(ctx):
                'this request type would lose the permit release / done handler')
     d = creator.methods['_default_get_make_request_args']
     cs = [c for c in own_calls(d.node) if (dotted(c.func) or '') == 'self.get_crt_callback' and len(c.args) >= 2 and norm(c.args[1]) == "'done'"]
-    ok = len(cs) == 1 and [norm(a) for a in cs[0].args] == ['future', "'done'", 'on_done_before_calls', 'on_done_after_calls']
+    ok = len(cs) == 1 and [norm(q.argn(cs[0], nm, k)) for k, nm in enumerate(('future', 'callback_type', 'before_subscribers', 'after_subscribers'))] \
+        == ['future', "'done'", 'on_done_before_calls', 'on_done_after_calls']
     dct = [n for n in own_nodes(d.node) if isinstance(n, ast.Dict) and any(isinstance(k, ast.Constant) and k.value == 'on_done' for k in n.keys)]
     ok = ok and len(dct) == 1 and any(isinstance(k, ast.Constant) and k.value == 'on_done' and q.resolve_local(d, v) is cs[0] for k, v in zip(dct[0].keys, dct[0].values))
     ctx.ob(d, "'on_done': get_crt_callback(future, 'done', on_done_before_calls, on_done_after_calls)", ok, 'the composed on_done callback is not what the CRT request gets')
